@@ -937,6 +937,14 @@ clauses — (labels, number of returns); an alarm, not semantics -/
 theorem C13_signal_switch_as_reviewed : Gen.ConfigValidate.signalSwitch =
     [("pipeline.SignalTraces,pipeline.SignalMetrics,pipeline.SignalLogs", 0), ("xpipeline.SignalProfiles", 1), ("default", 1)] := by decide
 
+/-- both entry points of package otelcol that judge a configuration — start-up / reload (`setupConfigurationComponents`) and the
+`validate` sub-command (`DryRun`) — go through the walk `xconfmap.Validate` (every nested `Validate()`), and nothing in the package calls
+a top-level `Validate()` method directly; the harness additionally runs every corpus mistake and generated documents through BOTH -/
+theorem C13_validation_entry_points :
+    Gen.ConfigValidate.validationCalls =
+      [("otelcol/collector.go", "Collector.setupConfigurationComponents", "xconfmap.Validate(cfg)"),
+       ("otelcol/collector.go", "Collector.DryRun", "xconfmap.Validate(cfg)")] := by decide
+
 example : evalPhases { receivers := [1], exporters := [2], connectors := [3], processors := [(4, true)], extensions := [(5, true)],
                        svcExtensions := [5], pipelines := [(0, ⟨[1], [4, 9], [2, 3]⟩)] } Gen.ConfigValidate.rootPhases
     = [.danglingProcessor 0 9] := by decide
